@@ -127,6 +127,19 @@ def summarise_scalar(orig, ph, name, out, i, iname, n, what):
     raise ModelError("loop-carried scalar '%s' is not an additive fold" % what)
 
 
+def summarise_scalar_to_arr(orig, ph, name, out, i, iname, n, what):
+    idx = [T.fresh("j") for _ in out.shape]
+    names = [T.symname(x) for x in idx]
+    delta = P(out.fn(*idx)) - ph
+    if mentions(delta, name):
+        raise ModelError("loop-carried scalar '%s' becomes an array non-additively" % what)
+
+    def fn(*jj):
+        mp = {nm: P(j) for nm, j in zip(names, jj)}
+        return P(orig) + T.mk_sum(i, n, T.subst(delta, mp))
+    return Arr(tuple(T.subst(d, {iname: ZERO}) for d in out.shape), fn, out.dtype, out.kind)
+
+
 def summarise_arr(orig, ph, name, out, i, iname, n, what):
     if not isinstance(out, Arr):
         raise ModelError("loop changes the type of '%s'" % what)
@@ -285,8 +298,10 @@ def symbolic_for(I, s, env, it, n):
                 set_name(env, nm, summarise_arr(orig, p, pname, out, i, iname, n, nm))
             else:
                 if isinstance(out, Arr):
-                    raise ModelError("scalar '%s' becomes an array in the loop" % nm)
-                set_name(env, nm, summarise_scalar(orig, p, pname, out, i, iname, n, nm))
+                    # acc = 0; acc += array_i   -- a broadcast scalar start
+                    set_name(env, nm, summarise_scalar_to_arr(orig, p, pname, out, i, iname, n, nm))
+                else:
+                    set_name(env, nm, summarise_scalar(orig, p, pname, out, i, iname, n, nm))
         else:
             _, oid, fld = key
             o, orig = saved[key]
